@@ -150,7 +150,7 @@ pub fn run(args: &Args) -> Report {
     let _ = std::fs::remove_dir_all(&root);
     let _ = std::fs::create_dir_all(&args.out);
     let current = format!("{}/current.txt", args.out);
-    let n = if args.thorough { 3000 } else { 500 };
+    let n = if args.thorough { 12000 } else { 500 };
     // witness of the known finding: a file that includes itself (aborts the process)
     if let Some(r) = &args.replay {
         if r.contains("gen:self-include") {
